@@ -4,6 +4,7 @@ use serde::{de::DeserializeOwned, Serialize};
 
 pub mod c01;
 pub mod c02;
+pub mod c03;
 pub mod c04;
 #[cfg(feature = "sched")]
 pub mod c14;
@@ -16,6 +17,7 @@ pub fn run(id: &str, o: &Opts, stats: &mut Stats) -> Option<usize> {
     match id {
         "C01" => c01::run(o, stats),
         "C02" => c02::run(o, stats),
+        "C03" => c03::run(o, stats),
         "C04" => c04::run(o, stats),
         #[cfg(feature = "sched")]
         "C14" => c14::run(o, stats),
